@@ -7,7 +7,7 @@ From Coq Require Import List NArith ZArith String.
 From Coq Require Import Strings.Byte.
 From GoBT Require Import lib.Bytes lib.Hex lib.Checked gen.OpNames gen.OpTable model.Push model.Parser model.Asm
   spec.PushSpec spec.TemplateSpec spec.CondDepthSpec proofs.PushProofs proofs.ParserProofs proofs.TokenProofs proofs.AsmProofs proofs.AuditD13
-  proofs.CondDepthProofs.
+  proofs.CondDepthProofs proofs.ShapedD13.
 Import ListNotations.
 Local Open Scope N_scope.
 
@@ -204,6 +204,55 @@ Print Assumptions C13_to_asm_marks_undecodable.
 
 Example C13_to_asm_marks_example : to_asm [x76; x4c] = Ok "OP_DUP [error]"%string /\ tokens p2pkh_ex2.
 Proof. split; [vm_compute; reflexivity|]. apply decode_ok_iff_tokens. vm_compute. reflexivity. Qed.
+
+(** ** template-SHAPED scripts (proofs/ShapedD13.v): no short cut keyed on a script's length and first bytes.
+
+    What DecodeParts makes of the bytes behind a well-formed head is what it makes of those bytes alone: the head
+    contributes its own tokens and nothing else, whatever its length and shape *)
+Theorem C13_decode_head_independent : forall pre, tokens pre ->
+  exists l, forall rest, decode_parts (pre ++ rest) = fold_right dcons (decode_parts rest) l.
+Proof. exact decode_head_independent. Qed.
+Print Assumptions C13_decode_head_independent.
+
+(** OP_DUP OP_HASH160 <20 bytes> followed by ANY bytes - two of them make the 25 bytes of a P2PKH script - is DUP,
+    HASH160, the hash, and then those bytes read by the grammar; when they are a push cut short, DecodeParts reports
+    an error and ToASM ends in [error] *)
+Theorem C13_p2pkh_shaped_decode : forall (h rest : bytes), List.length h = 20%nat ->
+  decode_parts ([x76; xa9; x14] ++ h ++ rest) = dcons [x76] (dcons [xa9] (dcons h (decode_parts rest))).
+Proof. exact p2pkh_shaped_decode. Qed.
+Print Assumptions C13_p2pkh_shaped_decode.
+Theorem C13_p2pkh_shaped_truncated_tail : forall (h t : bytes), List.length h = 20%nat -> truncated_push t ->
+  dres_ok (decode_parts ([x76; xa9; x14] ++ h ++ t)) = false /\
+  exists pre, to_asm ([x76; xa9; x14] ++ h ++ t) = Ok (pre ++ "[error]")%string.
+Proof. exact p2pkh_shaped_truncated_tail. Qed.
+Print Assumptions C13_p2pkh_shaped_truncated_tail.
+
+(** the two tokenisers agree on any OP_RETURN-free head followed by any bytes without an OP_RETURN at a token
+    boundary - in particular on every script with the head of a P2PKH script, of any length *)
+Theorem C13_shaped_tail_agree : forall pre rest, tokens_no_return pre -> ~ op_return_at_boundary rest ->
+  agree (pre ++ rest).
+Proof. exact shaped_tail_agree. Qed.
+Print Assumptions C13_shaped_tail_agree.
+Theorem C13_p2pkh_shaped_agree : forall (h rest : bytes), List.length h = 20%nat -> ~ op_return_at_boundary rest ->
+  agree ([x76; xa9; x14] ++ h ++ rest).
+Proof. exact p2pkh_shaped_agree. Qed.
+Print Assumptions C13_p2pkh_shaped_agree.
+
+(** 25-byte scripts with the head of a P2PKH script whose last two bytes are not OP_EQUALVERIFY OP_CHECKSIG: a
+    PUSHDATA1 opcode alone at the end is a truncated push (error, [error] marker); 01 ac is ONE push of one byte
+    for both tokenisers, not two opcodes *)
+Example C13_p2pkh_shaped_examples :
+  truncated_push [x4c] /\
+  dres_ok (decode_parts ([x76; xa9; x14] ++ repeat_byte 20 x11 ++ [x88; x4c])) = false /\
+  parse false ([x76; xa9; x14] ++ repeat_byte 20 x11 ++ [x88; x4c]) = Err /\
+  decode_parts ([x76; xa9; x14] ++ repeat_byte 20 x11 ++ [x01; xac]) = DOk [[x76]; [xa9]; repeat_byte 20 x11; [xac]] /\
+  agree ([x76; xa9; x14] ++ repeat_byte 20 x11 ++ [x01; xac]) /\
+  ~ op_return_at_boundary [x01; xac].
+Proof.
+  split; [|split; [|split; [|split; [|split]]]]; try (vm_compute; reflexivity).
+  - exists [x4c; x01], [x00], [x01; x00]. repeat split; try discriminate. apply (ph_pd1 1). reflexivity.
+  - apply no_6a_no_return. cbn. intros [H|[H|[]]]; discriminate.
+Qed.
 
 (** Conditional depth (spec/CondDepthSpec.v): only OP_IF / OP_NOTIF open a block and only OP_ENDIF closes one - not
     OP_ELSE, OP_VERIF, OP_VERNOTIF, nor bytes inside push data.  After ANY token sequence that leaves that depth at 0
